@@ -199,6 +199,14 @@ def eval_sequence(m1, m2):
     s3 = lib.call(solve, [list(r) for r in m1])
     if not isinstance(s3, lib.Raised):
         check('first-system-written-down-again', m1, s3)
+    # a Solution is a value: after other systems (given as their own, separate lists) were solved, it still answers for the
+    # system it was computed from
+    sa = lib.call(solve, [list(r) for r in m1])
+    sb = lib.call(solve, [list(r) for r in m2])
+    if not isinstance(sa, lib.Raised) and not isinstance(sb, lib.Raised):
+        lib.call(bool, sb)
+        check('solution-of-the-first-system-used-after-solving-the-second', m1, sa)
+        check('solution-of-the-second-system-used-after-the-first-was-called', m2, sb)
     return 'sequence', viols
 
 
